@@ -12,7 +12,8 @@ open ClockBound ClockBound.Rs ClockBound.Rs.DictShm
 
 attribute [rs_eval] DictShm.path DictShm.deref DictShm.method DictShm.call DictShm.methodA DictShm.callA
   DictShm.methodB DictShm.methodC DictShm.callC DictShm.pathC DictShm.pathAll DictShm.derefAll DictShm.derefC
-  DictShm.macroC DictShm.fieldOfC DictShm.atomicVal DictShm.addr DictShm.addrPlus DictShm.libcConst DictShm.asInt
+  DictShm.macroC DictShm.methodD DictShm.callD DictShm.pathD DictShm.fsCall DictShm.asResult DictShm.pathObj
+  DictShm.fileObj DictShm.syscallErr DictShm.fieldOfC DictShm.atomicVal DictShm.addr DictShm.addrPlus DictShm.libcConst DictShm.asInt
   DictShm.ptrA16 DictShm.refA16 DictShm.ptrCeb DictShm.ordering DictShm.asU16 DictShm.asU64 bitInt
 
 /-! the dictionary stays folded (`DictShm.ext`); its fields -/
